@@ -25,9 +25,18 @@ def _m_sanitize(ip, args, kwargs):
     return external.m_normalize(ip, ['NFKD', args[1]], {})
 
 
+def _m_to_entropy(ip, args, kwargs):
+    """ASSUMED contract of Mnemonic.to_entropy inside to_seed: validates the sentence (may raise), returns entropy bytes;
+    it does not change its argument"""
+    from pyvc.values import SBytes
+    from pyvc.api import Bytes
+    return Bytes.fresh(ip.ctx, 'entropy')
+
+
 def _install(reg):
     reg.models[hashlib.pbkdf2_hmac] = _m_pbkdf2
     reg.models[Mnemonic.sanitize_mnemonic] = _m_sanitize
+    reg.models[Mnemonic.to_entropy] = _m_to_entropy
 
 
 INSTALLERS.append(_install)
@@ -51,3 +60,21 @@ class to_seed:
         words = m.generate(rng.choice([128, 256]))
         pw = rng.choice(['', 'TREZOR', 'é', 'é', 'ｐａｓｓ', 'Å', 'Ωhm', 'pass phrase'])
         return {'self': None, 'words': words, 'password': pw}
+
+
+@contract('bitcoinlib.mnemonic.Mnemonic.to_seed', case='dataflow-validate', props=('C14',))
+class to_seed_validate:
+    """the same with validation switched on (the default): validation must not change which text reaches PBKDF2"""
+    params = {'self': RecordOf(Mnemonic), 'words': Str, 'password': Str}
+    kwargs = {'validate': True}
+    result_is = to_seed.__dict__['result_is']
+
+    def build(self, words, password):
+        return (lambda: Mnemonic().to_seed(words, password, validate=True)), [], {}
+
+    def sample(rng):
+        lang = rng.choice(['spanish', 'french', 'japanese', 'english', 'italian'])
+        words = Mnemonic(lang).generate(rng.choice([128, 256]))
+        if rng.random() < 0.7:
+            words = unicodedata.normalize('NFC', words)          # as typed on most keyboards
+        return {'self': None, 'words': words, 'password': rng.choice(['', 'TREZOR', 'é'])}
